@@ -252,6 +252,9 @@ creationDateLoop:
 	if !ok {
 		lenIV = 4
 	}
+	if lenIV < 0 {
+		return nil, errors.New("invalid lenIV")
+	}
 
 	ctx := &decodeInfo{}
 	if subrs, ok := pd["Subrs"].(postscript.Array); ok {
